@@ -260,6 +260,8 @@ type storeWorld struct {
 
 	// allocation counter as seen by the oracle
 	allocs func() int
+	// discardsSeen, if set: has the index discarded an entry during this run
+	discardsSeen func() bool
 
 	readsOK, readsNotFound, readsOtherErr int
 	putsOK, putsFailed                    int
